@@ -78,12 +78,37 @@ let spec_judge data (refs : Records.ref_record list) (nlogs : Records.log_record
     else if t.SpecDecoder.sp_sha256 <> sha then "spec:hash-id"
     else "ok"
 
+(* a table written with padding on: every non-log block on a block boundary *)
+let spec_padded_ok data =
+  match SpecDecoder.spec_aligned spec_inflate data with
+  | Datatypes.Coq_inr true -> "ok"
+  | Datatypes.Coq_inr false -> "spec:block-off-boundary-in-padded-table"
+  | Datatypes.Coq_inl e -> "spec:" ^ show_spec_err e
+
+(* args: <hex of the file> [<1 = written with padding on>] *)
 let () = register "wellformed" (fun args ->
-  let data = bytes_of_hex (L.nth args 0) in
+  let f = S.split_on_char '|' (L.nth args 0) in
+  let data = bytes_of_hex (L.nth f 0) in
+  let padded = match f with [_; "1"] -> true | _ -> false in
   let m = match SpecDecoder.spec_decode spec_inflate data with
     | Datatypes.Coq_inl e -> "rejected:" ^ show_spec_err e
-    | Datatypes.Coq_inr t -> Printf.sprintf "ok" in
+    | Datatypes.Coq_inr t ->
+      if padded then (match spec_padded_ok data with "ok" -> "ok" | e -> "rejected:" ^ e) else "ok" in
   (m, if m = "ok" then "ok" else "bad:" ^ m))
+
+(* debugging aid: the block layout the judge sees *)
+let () = register "layout" (fun args ->
+  let data = bytes_of_hex (L.nth args 0) in
+  let total = L.length data in
+  let version = L.nth data 4 in
+  let v1 = (string_of_n version = "1") in
+  let hs = if v1 then 24 else 28 and fs = if v1 then 68 else 72 in
+  let bs = n_of_string (string_of_int ((int_of_string (string_of_n (L.nth data 5))) * 65536 + (int_of_string (string_of_n (L.nth data 6))) * 256 + int_of_string (string_of_n (L.nth data 7)))) in
+  let hsize = if v1 then 20 else 32 in
+  let r = SpecDecoder.parse_blocks spec_inflate (nat_of_int (total + 1)) data (n_of_string (string_of_int (total - fs))) bs (nat_of_int hsize) (nat_of_int hs) (n_of_string "0") [] in
+  (match r with
+   | Datatypes.Coq_inl e -> ("err:" ^ show_spec_err e, "-")
+   | Datatypes.Coq_inr bl -> (S.concat " " (L.map (fun b -> Printf.sprintf "%c@%s->%s" (Char.chr (int_of_string (string_of_n b.SpecDecoder.sb_typ))) (string_of_n b.SpecDecoder.sb_pos) (string_of_n b.SpecDecoder.sb_next)) bl), "-")))
 
 (* ---- tables: C01 C02 C11 C14 ---- *)
 let show_res f = function
@@ -176,8 +201,11 @@ let () = register "table" (fun args ->
              | _ -> "bad:query-count" in
            let v = chk qs qres in
            if v <> "ok" then v else
-           let j = spec_judge (bytes_of_hex (S.sub w 3 (S.length w - 3))) refs nlogs mn mx cfg.Writer.c_sha256 in
-           if j = "ok" then "ok" else "bad:" ^ j)
+           let wbytes = bytes_of_hex (S.sub w 3 (S.length w - 3)) in
+           let j = spec_judge wbytes refs nlogs mn mx cfg.Writer.c_sha256 in
+           if j <> "ok" then "bad:" ^ j else
+           if cfg.Writer.c_unaligned then "ok" else
+           (match spec_padded_ok wbytes with "ok" -> "ok" | e -> "bad:" ^ e))
     | w :: _ when w = "panic" -> "bad:writer-panic"
     | _ :: o :: _ when o = "panic" -> "bad:open-panic"
     | _ -> "-" in
